@@ -36,6 +36,17 @@ var readOnlyCmds = [][]string{
 	{"today", "--diff"},
 	{"json"},
 	{"json", "--pretty"},
+	{"today", "--diff", "--now"},
+	{"today", "--now", "--decimal"},
+	{"total", "--now", "--diff"},
+	{"report", "--now", "--diff", "--fill"},
+	{"report", "--aggregate", "day", "--chart", "--decimal", "--now"},
+	{"tags", "--now"},
+	{"json", "--now"},
+	{"print", "--with-totals", "--sort", "asc", "--no-style"},
+	{"total", "--today", "--now"},
+	{"total", "--period", "2020-01", "--diff"},
+	{"print", "--tag", "a", "--with-totals"},
 }
 
 // runReadOnly writes text to a temporary file and runs every read-only command on it.
@@ -106,7 +117,11 @@ func hFuzz(c M) M {
 			}
 			cmds = sel
 		}
-		o["cmds"] = runReadOnly(text, cmds, time.Date(2020, 1, 1, 12, 0, 0, 0, time.UTC))
+		now := time.Date(2020, 1, 1, 12, 0, 0, 0, caseLoc)
+		if n := str(c, "now"); n != "" {
+			now = parseNow(n)
+		}
+		o["cmds"] = runReadOnly(text, cmds, now)
 	} else {
 		_, _, errs := serial.Parse(text)
 		o["render_panic"] = try(func() {
